@@ -63,6 +63,7 @@ func init() {
 	reg(propCfg{ID: "C14", Level: "exploration", Quick: q(16, 1500), Thorough: th(16, 30000)})
 	reg(propCfg{ID: "C15", Level: "exploration", Quick: q(16, 2000), Thorough: th(16, 40000)})
 	reg(propCfg{ID: "C16", Level: "exploration", Quick: q(16, 2500), Thorough: th(16, 60000)})
+	reg(propCfg{ID: "C17", Level: "exploration", Quick: q(16, 2000), Thorough: th(16, 40000)})
 	reg(propCfg{ID: "C18", Level: "exploration", Quick: q(16, 3000), Thorough: th(16, 80000)})
 	reg(propCfg{ID: "C05", Level: "exploration", Quick: q(16, 3000), Thorough: th(16, 80000)})
 	reg(propCfg{ID: "C06", Level: "exploration", Quick: q(16, 3000), Thorough: th(16, 50000)})
@@ -104,6 +105,7 @@ type shardResult struct {
 	out      string
 	timeout  bool
 	inflight []byte
+	libhang  string // name of the library call that did not return (watchdog)
 }
 
 func shardSeed(seed int64, k int) uint64 {
@@ -158,6 +160,10 @@ func runShard(cfg propCfg, bin, id, tier string, k, n int, seed int64, checks in
 		if b, err := os.ReadFile(inflight); err == nil && len(bytes.TrimSpace(bytes.Trim(b, "\x00"))) > 0 {
 			res.inflight = bytes.Trim(b, "\x00")
 		}
+	}
+	if b, err := os.ReadFile(inflight + ".libhang"); err == nil {
+		res.libhang = string(b)
+		os.Remove(inflight + ".libhang")
 	}
 	os.Remove(inflight)
 	return res
@@ -251,7 +257,7 @@ func replay(cfg propCfg, file string) int {
 		fmt.Printf("the replay process died\nVIOLATION property=%s replay=%s\n", cfg.ID, abs)
 		return 1
 	}
-	if strings.Contains(string(out), "REPLAY-FAIL") {
+	if strings.Contains(string(out), "REPLAY-FAIL") || strings.Contains(string(out), "LIBRARY-CALL-HANG") {
 		fmt.Printf("VIOLATION property=%s replay=%s\n", cfg.ID, abs)
 		return 1
 	}
@@ -263,11 +269,11 @@ func replay(cfg propCfg, file string) int {
 
 // replayHangs re-runs one case alone with a 120 s limit and reports whether it still does not finish.
 func replayHangs(cfg propCfg, bin, path string) bool {
-	cmd := exec.Command(bin, "-test.run", "^Test"+cfg.ID+"$", "-test.count", "1", "-test.timeout", "120s")
+	cmd := exec.Command(bin, "-test.run", "^Test"+cfg.ID+"$", "-test.count", "1", "-test.timeout", "10m")
 	cmd.Dir = filepath.Join(verifDir(), "props")
 	cmd.Env = append(os.Environ(), "VERIF_MODE=replay", "VERIF_REPLAY="+path, "VERIF_DIR="+verifDir())
 	out, _ := cmd.CombinedOutput()
-	return strings.Contains(string(out), "panic: test timed out")
+	return strings.Contains(string(out), "LIBRARY-CALL-HANG")
 }
 
 // knownFindings re-runs every open known finding of the property and prints the
@@ -365,21 +371,26 @@ func run(cfg propCfg, tier string, seed int64) int {
 	capped := false
 	var notes []string
 	for _, r := range results {
-		if (r.part == nil || !r.part.Done) && r.timeout && len(r.inflight) > 0 {
-			// a shard hit its deadline: re-run the in-flight case alone with a generous limit;
-			// only a case that hangs again on its own is reported (class hang), otherwise the run is inconclusive
+		if (r.part == nil || !r.part.Done) && r.libhang != "" && len(r.inflight) > 0 {
+			// the watchdog saw a call into the library run for more than its limit: confirm by
+			// re-running the journaled case alone; only a repeat is reported
 			dir := filepath.Join(verifDir(), "replays")
 			os.MkdirAll(dir, 0o755)
 			path := filepath.Join(dir, fmt.Sprintf("%s-hang-shard%d.json", cfg.ID, r.k))
-			rf := h.ReplayFile{Property: cfg.ID, Class: "hang", Msg: "the call did not return within the shard deadline and again not within 120 s when run alone", Case: json.RawMessage(r.inflight)}
+			rf := h.ReplayFile{Property: cfg.ID, Class: "hang/" + r.libhang, Msg: "the library call " + r.libhang + " did not return within the watchdog limit, also when the case was re-run alone", Case: json.RawMessage(r.inflight)}
 			b, _ := json.MarshalIndent(rf, "", " ")
 			os.WriteFile(path, b, 0o644)
 			if replayHangs(cfg, bin, path) {
-				failures = append(failures, &h.FailureRec{Class: "hang", Msg: rf.Msg, Replay: path})
+				failures = append(failures, &h.FailureRec{Class: rf.Class, Msg: rf.Msg, Replay: path})
 			} else {
 				inconclusive = true
-				notes = append(notes, fmt.Sprintf("shard %d timed out; its in-flight case completes when run alone (%s)", r.k, path))
+				notes = append(notes, fmt.Sprintf("shard %d: watchdog fired for %s but the case completes when run alone (%s)", r.k, r.libhang, path))
 			}
+			continue
+		}
+		if (r.part == nil || !r.part.Done) && r.timeout {
+			inconclusive = true
+			notes = append(notes, fmt.Sprintf("shard %d hit its deadline (slow harness or machine; not a violation)", r.k))
 			continue
 		}
 		if (r.part == nil || !r.part.Done) && !r.timeout && cfg.DeathIsViolation && len(r.inflight) > 0 {
